@@ -325,6 +325,77 @@ example : (run (Client.init 205 true) [.clientServiceConnect 0, .loss, .advance 
     (serviceConnectAsIs (run (Client.init 205 true) [.clientServiceConnect 0, .loss, .advance 300]).1 (fun _ => 0)).2 = [] := by
   decide
 
+/-! ## the TLS subclass (`ClientTls`): the same connection management with a handshake phase -/
+
+/-- **Reusing a TLS client: `reopen` always starts from scratch** — whatever the state (connected after a
+completed handshake, cut off, closed), after `reopen()` the client is neither connected nor accepted
+nor cut off and holds a fresh socket.  (This is what lets `serviceConnect` connect again.) -/
+theorem C27_tls_reopen_clears_connected (t : Tls) :
+    (tlsReopen t).1.connected = false ∧ (tlsReopen t).1.c.accepted = false ∧ (tlsReopen t).1.c.cutoff = false ∧
+    (∃ id, (tlsReopen t).1.c.sock = some id) ∧ TlsInv (tlsReopen t).1 :=
+  tlsReopen_clears t
+
+/-- **TLS client: connected means accepted on the live socket** — over every history of service calls
+(with any answers of `connect_ex` and `do_handshake`, handshake failures included), losses and owner
+close/reopen: `connected` implies `accepted`, a socket is held and `.ca` is that socket's address. -/
+theorem C27_tls_connected_implies_accepted (timeout : Int) (rec : Bool) (retry : Option Int) (ops : List TOp) :
+    (trun (Tls.init timeout rec retry) ops).1.connected = true →
+      (trun (Tls.init timeout rec retry) ops).1.c.accepted = true ∧
+      (trun (Tls.init timeout rec retry) ops).1.c.sock.isSome = true ∧
+      (trun (Tls.init timeout rec retry) ops).1.c.ca = (trun (Tls.init timeout rec retry) ops).1.c.sock := by
+  intro hc
+  obtain ⟨h1, h2⟩ := trun_inv ops (Tls.init timeout rec retry) (tlsInv_of_not _ rfl rfl)
+  exact ⟨h1 hc, h2 (h1 hc)⟩
+
+/-- a TLS client reused after a completed handshake: connected, the server closes, the timeout passes,
+`serviceConnect` against a server that answers at once → connected again on the new socket -/
+example : (trun (Tls.init 205 true)
+    [.clientServiceConnect 0 .ok, .loss, .advance 300, .clientServiceConnect 0 .ok]).1.connected = true ∧
+    (trun (Tls.init 205 true)
+    [.clientServiceConnect 0 .ok, .loss, .advance 300, .clientServiceConnect 0 .ok]).1.c.ca = some 1 ∧
+    (trun (Tls.init 205 true)
+    [.clientServiceConnect 0 .ok, .loss, .advance 300, .clientServiceConnect 115 .ok]).1.connected = false := by
+  decide
+
+/-- **A cut off TLS client reconnects** (the seeded-change scenario, immediate server): reconnectable
+`ClientTls`, cut off after a completed handshake (or in any other state), reconnect timer expired; the
+server accepts the connection and completes the handshake at once.  One `serviceConnect` call reopens,
+connects and shakes hands: the client is connected, not cut off, on the fresh socket, and reports that
+socket's address. -/
+theorem C27_tls_reconnects_after_cutoff (t : Tls) (ans : Nat → Nat) (hs : Nat → Shake)
+    (hx : t.c.cutoff = true) (hr : t.c.reconnectable = true) (hf : timerFired t.c = true)
+    (hans : isOk (ans 0)) (hhs : hs 0 = .ok) :
+    (tlsServiceConnect t ans hs).1.connected = true ∧ (tlsServiceConnect t ans hs).1.c.accepted = true ∧
+    (tlsServiceConnect t ans hs).1.c.cutoff = false ∧ (tlsServiceConnect t ans hs).1.c.sock = some t.c.fresh ∧
+    (tlsServiceConnect t ans hs).1.c.ca = some t.c.fresh := by
+  have hcp : (tlsCutoffPart t none) = tlsReopenRestart t none := by
+    unfold tlsCutoffPart
+    rw [if_pos (by rw [hx, hr, hf]; rfl)]
+  have hrr : (tlsReopenRestart t none).1 =
+      ⟨{ t.c with accepted := false, cutoff := false, sock := some t.c.fresh, fresh := t.c.fresh + 1, attempts := 0,
+                  opened := true, timer := t.c.timer.restart t.c.now none }, false, 0⟩ := by
+    unfold tlsReopenRestart
+    have := tlsReopen_fst t
+    generalize tlsReopen t = r at this
+    obtain ⟨t1, e1⟩ := r
+    simp only at this
+    subst this
+    rfl
+  unfold tlsServiceConnect
+  rw [hcp]
+  generalize hgen : tlsReopenRestart t none = r at hrr
+  obtain ⟨t0, e0⟩ := r
+  simp only at hrr
+  subst hrr
+  have hok : ans 0 = 0 ∨ ans 0 = EISCONN := hans
+  simp [tlsConnect, accept, hok, hhs]
+
+example :
+    let t : Tls := ⟨{ Client.init 205 true with accepted := true, cutoff := true, ca := some 0, now := 900 }, true, 1⟩
+    (tlsServiceConnect t (fun _ => 0) (fun _ => .ok)).1.connected = true ∧
+    (tlsServiceConnect t (fun _ => 0) (fun _ => .ok)).1.c.ca = some 1 := by decide
+
+
 /-! ## the full statement and why it fails on this code -/
 
 /-- what the property asks for, without assumptions about the schedule: from the state a timer-driven
